@@ -20,10 +20,12 @@ Flags (exclusions by construction; all default to the full language):
     guards        set of operand guards: "div" (divisor forced into 1..255), "shift" (count masked
                   below the width), "addr" (addresses forced in bounds), "ci" (call_indirect only to
                   initialised table slots of the right type), "trunc" (float->int operands clamped
-                  to a small range), "grow" (memory.grow only by 0)
+                  to a small range), "grow" (memory.grow only by 0), "sqrt" (operand wrapped in abs),
+                  "fdiv" (float divisor forced to |b|+1)
     no_features   set of module features left out: imports, import_globals, table, memory, start,
                   globals, float_globals, dead_code, data, unreachable, nan_consts, snan_consts,
-                  br_table, loop_result, export_globals
+                  br_table, loop_result, export_globals, export_float_globals, inf_consts,
+                  elem_imports, nan_args, dead_loops (a loop inside code that follows a br/return/...)
 """
 
 import struct
@@ -86,6 +88,16 @@ class Flags:
 
 def const_value(draw, t, flags, arg=False):
     """A constant of type t, biased to boundaries.  Returned in the wire form (ints signed, floats bits)."""
+    v = _const_value(draw, t, flags, arg)
+    if not arg and not flags.has("inf_consts"):
+        if t == "f32" and (v & 0x7FFFFFFF) == 0x7F800000:
+            v = (v & 0x80000000) | 0x7F7FFFFF
+        if t == "f64" and (v & 0x7FFFFFFFFFFFFFFF) == 0x7FF0000000000000:
+            v = (v & 0x8000000000000000) | 0x7FEFFFFFFFFFFFFF
+    return v
+
+
+def _const_value(draw, t, flags, arg):
     k = draw(st.integers(0, 9))
     if t == "i32":
         if k < 7:
@@ -171,6 +183,7 @@ class FnCtx:
         self.counters = set()
         self.mult = 1
         self.cost = 0
+        self.dead = 0  # >0 while generating code after a terminator
 
     # ---- helpers
     def pick(self, alts):
@@ -208,7 +221,7 @@ class FnCtx:
         alts = [(3, lambda: self.leaf(t))]
         un = self.ops(UNOPS[t])
         if un:
-            alts.append((3, lambda: [self.draw(st.sampled_from(un)), [], [self.expr(t, d - 1)]]))
+            alts.append((3, lambda: self.unop(t, self.draw(st.sampled_from(un)), d)))
         bi = self.ops(BINOPS[t])
         if bi:
             alts.append((8, lambda: self.binop(t, self.draw(st.sampled_from(bi)), d)))
@@ -228,7 +241,7 @@ class FnCtx:
             alts.append((1, lambda: ["local.tee", [self.draw(st.sampled_from(ls))], [self.expr(t, d - 1)]]))
         alts.append((2, lambda: self.block_expr(t, d)))
         alts.append((3, lambda: self.if_expr(t, d)))
-        if self.flags.has("loop_result"):
+        if self.flags.has("loop_result") and (not self.dead or self.flags.has("dead_loops")):
             alts.append((1, lambda: self.loop(t, d)))
         callees = self.mod.callees(self.fidx, t)
         if callees:
@@ -250,12 +263,21 @@ class FnCtx:
     def grow(self):
         if "grow" in self.flags.guards:
             return ["memory.grow", [], [cnode("i32", 0)]]
-        return ["memory.grow", [], [cnode("i32", self.draw(st.sampled_from([0, 1, 1, 2, 65535, -1])))]]
+        return ["memory.grow", [], [cnode("i32", self.draw(st.sampled_from([0, 1, 1, 2, 3, 65536, -1])))]]
+
+    def unop(self, t, op, d):
+        a = self.expr(t, d - 1)
+        if op.endswith(".sqrt") and "sqrt" in self.flags.guards:
+            a = ["%s.abs" % t, [], [a]]
+        return [op, [], [a]]
 
     def binop(self, t, op, d):
         a = self.expr(t, d - 1)
         b = self.expr(t, d - 1)
         name = op.split(".")[1]
+        if name == "div" and "fdiv" in self.flags.guards:  # float divisor forced to |b| + 1 (never zero)
+            one = f32b(1.0) if t == "f32" else f64b(1.0)
+            b = ["%s.add" % t, [], [["%s.abs" % t, [], [b]], cnode(t, one)]]
         if name in ("div_s", "div_u", "rem_s", "rem_u") and "div" in self.flags.guards:
             b = ["%s.or" % t, [], [["%s.and" % t, [], [b, cnode(t, 0xFF)]], cnode(t, 1)]]
         if name in ("shl", "shr_s", "shr_u", "rotl", "rotr") and "shift" in self.flags.guards:
@@ -345,9 +367,11 @@ class FnCtx:
             out.append(self.stmt(d))
             if out[-1][0] in ("br", "br_table", "return", "unreachable"):
                 if self.flags.has("dead_code") and self.draw(st.booleans()):
-                    out.append(self.stmt(min(d, 1)))
+                    self.dead += 1
+                    out.append(self.stmt(min(d, 2)))
                     if t is not None:
-                        out.append(self.expr(t, min(d, 1)))
+                        out.append(self.expr(t, min(d, 2)))
+                    self.dead -= 1
                 return out
         if t is not None:
             out.append(self.expr(t, d))
@@ -413,7 +437,8 @@ class FnCtx:
         alts.append((1, lambda: ["nop", [], []]))
         alts.append((2, lambda: self.block_expr(None, d)))
         alts.append((3, lambda: self.if_expr(None, d)))
-        alts.append((3, lambda: self.loop(None, d)))
+        if not self.dead or self.flags.has("dead_loops"):
+            alts.append((3, lambda: self.loop(None, d)))
         callees = self.mod.callees(self.fidx, None)
         if callees:
             alts.append((2, lambda: self.call(self.draw(st.sampled_from(callees)), d)))
@@ -581,7 +606,7 @@ def cases(draw, flags=None, max_funcs=4, fuel=40, depth=5, ncalls=4):
     for k in range(nf):
         desc["funcs"].append({"type": type_index(sigs[k]), "locals": [], "body": []})
     if desc["table"]:
-        cand = list(range(mod.nfi)) + [mod.nfi + k for k in range(mod.table_group)]
+        cand = (list(range(mod.nfi)) if flags.has("elem_imports") else []) + [mod.nfi + k for k in range(mod.table_group)]
         pos = 0
         for _ in range(draw(st.integers(1, 2))):
             room = desc["table"]["min"] - pos
@@ -619,6 +644,8 @@ def cases(draw, flags=None, max_funcs=4, fuel=40, depth=5, ncalls=4):
     if flags.has("export_globals"):
         ngi = R.n_global_imports(desc)
         for i, g in enumerate(desc["globals"]):
+            if g["vt"] in ("f32", "f64") and not flags.has("export_float_globals"):
+                continue
             desc["exports"].append({"name": "g%d" % i, "kind": "global", "idx": ngi + i})
     if desc["table"] and draw(st.booleans()):
         desc["exports"].append({"name": "tab", "kind": "table", "idx": 0})
